@@ -44,11 +44,15 @@ Definition qmem (x : Q) (l : list Q) : bool := existsb (Qeq_bool x) l.
 Definition Qlt_bool (a b : Q) : bool := negb (Qle_bool b a).
 
 (*  for val in numbers:
-        if total - val in numbers and total - val > val: remove.add(total - val)
-        if val == total or val == 0:                     remove.add(val)                *)
-Definition mgs_removed (numbers : list Q) (total : Q) : list Q :=
-  flat_map (fun v => (if qmem (total - v)%Q numbers && Qlt_bool v (total - v)%Q then [(total - v)%Q] else []) ++
+        if max_multiplicity == 1 and total - val in numbers and total - val > val: remove.add(total - val)
+        if val == total or val == 0:                                                remove.add(val)
+    [compl] = "complements are removed": max_multiplicity == 1 in the code as it is (295fbde);
+    the code before that fix removed them for every multiplicity ([mgs_preprocess_old]) *)
+Definition mgs_removed_gen (compl : bool) (numbers : list Q) (total : Q) : list Q :=
+  flat_map (fun v => (if compl && qmem (total - v)%Q numbers && Qlt_bool v (total - v)%Q then [(total - v)%Q] else []) ++
                      (if Qeq_bool v total || Qeq_bool v 0%Q then [v] else [])) numbers.
+Definition mgs_removed (mult : nat) (numbers : list Q) (total : Q) : list Q :=
+  mgs_removed_gen (mult =? 1)%nat numbers total.
 
 Fixpoint qnodup (l : list Q) : list Q :=
   match l with
@@ -58,15 +62,23 @@ Fixpoint qnodup (l : list Q) : list Q :=
 
 (* list(set(numbers) - removed): a duplicate-free list; Python's order is hash order, so the
    correspondence compares the result as a set and hands the object's own order to the encoder *)
-Definition mgs_preprocess (remove_complements : bool) (numbers : list Q) (total : Q) : list Q :=
+Definition mgs_preprocess_gen (compl remove_complements : bool) (numbers : list Q) (total : Q) : list Q :=
   if remove_complements
-  then qnodup (filter (fun x => negb (qmem x (mgs_removed numbers total))) numbers)
+  then qnodup (filter (fun x => negb (qmem x (mgs_removed_gen compl numbers total))) numbers)
   else numbers.
+Definition mgs_preprocess (remove_complements : bool) (mult : nat) (numbers : list Q) (total : Q) : list Q :=
+  mgs_preprocess_gen (mult =? 1)%nat remove_complements numbers total.
+(* old behaviour (before 295fbde): complements removed for every max_multiplicity *)
+Definition mgs_preprocess_old (remove_complements : bool) (numbers : list Q) (total : Q) : list Q :=
+  mgs_preprocess_gen true remove_complements numbers total.
 
 (* ---- _create_solver(k) ---- *)
 Definition mult1 (I : mgs_inst) : bool := (mg_mult I =? 1)%nat.
 Definition x_ub (I : mgs_inst) : Q := if mult1 I then 1%Q else inject_Z (Z.of_nat (mg_mult I)).
-Definition nbits (I : mgs_inst) : nat := num_bits (mg_total I).
+(* bound handed to add_integer_continuous_product_constraint: max(total, max_multiplicity) (b959a54);
+   before that fix: total ([encode_mgs_old]).  [pub] is a parameter of the generators below. *)
+Definition prod_ub (I : mgs_inst) : Q :=
+  let m := inject_Z (Z.of_nat (mg_mult I)) in if Qle_bool m (mg_total I) then mg_total I else m.
 
 Definition parts_of (I : mgs_inst) : list (list Q) := match mg_parts I with None => [] | Some cs => cs end.
 (* t = max(len(c) for c in partition_constraints) *)
@@ -92,17 +104,17 @@ Definition part_rows (I : mgs_inst) (k : nat) : list row :=
                             (zipn 0 (snd cc))) (zipn 0 (parts_of I))
   end.
 
-Definition mgs_cols (I : mgs_inst) (k : nat) : list col :=
+Definition mgs_cols (pub piub : Q) (I : mgs_inst) (k : nat) : list col :=
   map (fun i => qcol (Gen i) 0%Q (mg_total I) (mg_int I)) (layers k) ++
   flat_map (fun i => map (fun j => qcol (Xv i j) 0%Q (x_ub I) true) (idxs (mg_numbers I))) (layers k) ++
-  flat_map (fun i => map (fun j => qcol (Pij i j) 0%Q (mg_total I) (mg_int I)) (idxs (mg_numbers I))) (layers k) ++
+  flat_map (fun i => map (fun j => qcol (Pij i j) 0%Q piub (mg_int I)) (idxs (mg_numbers I))) (layers k) ++
   (if mult1 I then []
-   else flat_map (fun j => flat_map (fun i => intprod_cols (Pij i j) 0%Q (mg_total I) (nbits I)) (layers k)) (idxs (mg_numbers I))) ++
+   else flat_map (fun j => flat_map (fun i => intprod_cols (Pij i j) 0%Q pub (num_bits pub)) (layers k)) (idxs (mg_numbers I))) ++
   part_cols I k.
 
-Definition prod_rows (I : mgs_inst) (i j : N) : list row :=
+Definition prod_rows (pub : Q) (I : mgs_inst) (i j : N) : list row :=
   if mult1 I then mcc_rows (Xv i j) (Gen i) (Pij i j) 0%Q (mg_total I)
-  else intprod_rows (Xv i j) (Gen i) (Pij i j) 0%Q (mg_total I) (nbits I).
+  else intprod_rows (Xv i j) (Gen i) (Pij i j) 0%Q pub (num_bits pub).
 
 Definition row_total (I : mgs_inst) (k : nat) : row := mkrow (map (fun i => (Gen i, 1%Q)) (layers k)) SEq (mg_total I).
 Definition row_sum_pi (k : nat) (ja : N * Q) : row := mkrow (map (fun i => (Pij i (fst ja), 1%Q)) (layers k)) SEq (snd ja).
@@ -110,23 +122,38 @@ Definition row_sum_pi (k : nat) (ja : N * Q) : row := mkrow (map (fun i => (Pij 
 Definition sym_rows (k : nat) : list row :=
   map (fun i => mkrow [(Gen i, 1%Q); (Gen (i + 1)%N, (- (1))%Q)] SLe 0%Q) (layers (k - 2)).
 
-Definition mgs_rows (I : mgs_inst) (k : nat) : list row :=
+Definition mgs_rows (pub : Q) (I : mgs_inst) (k : nat) : list row :=
   [row_total I k] ++
-  flat_map (fun ja => flat_map (fun i => prod_rows I i (fst ja)) (layers k) ++ [row_sum_pi k ja]) (zipn 0 (mg_numbers I)) ++
+  flat_map (fun ja => flat_map (fun i => prod_rows pub I i (fst ja)) (layers k) ++ [row_sum_pi k ja]) (zipn 0 (mg_numbers I)) ++
   sym_rows k ++
   part_rows I k.
 
-Definition encode_mgs (I : mgs_inst) (k : nat) : milp :=
-  {| cols := mgs_cols I k; rows := mgs_rows I k; obj := []; maximize := false |}.
+(* upper bound of the pi columns: total if max_multiplicity == 1 else max([total] + numbers) (a068bcc);
+   before that fix: total ([encode_mgs_pi_old]) *)
+Definition pi_ub (I : mgs_inst) : Q := if mult1 I then mg_total I else list_max (mg_total I) (mg_numbers I).
 
-(* ---- solve(): for k in range(lowerbound, max(lowerbound + 1, len(initial_numbers) + 2)) ----
+Definition encode_mgs_gen (pub piub : Q) (I : mgs_inst) (k : nat) : milp :=
+  {| cols := mgs_cols pub piub I k; rows := mgs_rows pub I k; obj := []; maximize := false |}.
+Definition encode_mgs (I : mgs_inst) (k : nat) : milp := encode_mgs_gen (prod_ub I) (pi_ub I) I k.
+(* old behaviour (before b959a54): bit vector sized from total only *)
+Definition encode_mgs_old (I : mgs_inst) (k : nat) : milp := encode_mgs_gen (mg_total I) (mg_total I) I k.
+(* old behaviour (before a068bcc): products bounded by total also when multiplicities are allowed *)
+Definition encode_mgs_pi_old (I : mgs_inst) (k : nat) : milp := encode_mgs_gen (prod_ub I) (mg_total I) I k.
+
+(* ---- solve(): extra_cuts = sum(len(c) - 1 for c in partition_constraints or [])
+               for k in range(lowerbound, max(lowerbound + 1, len(initial_numbers) + 2 + extra_cuts)) ----
    kOptimal at k: answer k.  kInfeasible: go on with k + 1.  Any other status (time limit, unknown,
    error ...): stop, unsolved.  Result: the ks tried in order, and Some k / None. *)
 Inductive mstatus := MgOptimal | MgInfeasible | MgOther.
 Definition is_opt (s : mstatus) : bool := match s with MgOptimal => true | _ => false end.
 
-Definition mgsm_range (lowerbound n_initial : nat) : list nat :=
-  seq lowerbound (Nat.max (lowerbound + 1) (n_initial + 2) - lowerbound).
+Definition extra_cuts (parts : option (list (list Q))) : Z :=
+  match parts with
+  | None => 0%Z
+  | Some cs => fold_right (fun c s => (Z.of_nat (length c) - 1 + s)%Z) 0%Z cs
+  end.
+Definition mgsm_range (lowerbound n_initial : nat) (extra : Z) : list nat :=
+  seq lowerbound (Z.to_nat (Z.max (Z.of_nat lowerbound + 1) (Z.of_nat n_initial + 2 + extra) - Z.of_nat lowerbound)).
 
 Fixpoint mgsm_loop_on (status : nat -> mstatus) (ks : list nat) : list nat * option nat :=
   match ks with
@@ -138,8 +165,8 @@ Fixpoint mgsm_loop_on (status : nat -> mstatus) (ks : list nat) : list nat * opt
               end
   end.
 
-Definition mgsm_loop (status : nat -> mstatus) (lowerbound n_initial : nat) : list nat * option nat :=
-  mgsm_loop_on status (mgsm_range lowerbound n_initial).
+Definition mgsm_loop (status : nat -> mstatus) (lowerbound n_initial : nat) (extra : Z) : list nat * option nat :=
+  mgsm_loop_on status (mgsm_range lowerbound n_initial extra).
 
 (* the loop as it was before the fixes 03febc7 / 2966290 (kept for the _refuted witnesses of the old
    behaviour): range(lowerbound, max(lowerbound + 1, len(initial_numbers))), every non-optimal status moves on *)
@@ -154,7 +181,8 @@ Fixpoint mgsm_loop_on_old (status : nat -> mstatus) (ks : list nat) : list nat *
 Definition mgsm_loop_old (status : nat -> mstatus) (lowerbound n_initial : nat) : list nat * option nat :=
   mgsm_loop_on_old status (mgsm_range_old lowerbound n_initial).
 
-(* self.weight_type(value): int() truncates toward zero, float() is the identity *)
+(* old conversion (before f5a395c) self.weight_type(value): int() truncates toward zero; the code as it is
+   uses round() for int (py_round_half_even below) and float() otherwise *)
 Definition py_int (q : Q) : Z := Z.quot (Qnum q) (Zpos (Qden q)).
 
 (* ====================================================================== MinSetCover *)
@@ -170,8 +198,7 @@ Definition cover_row (I : msc_inst) (el : N) : row :=
   mkrow (map (fun iS => (Sub (fst iS), 1%Q)) (filter (fun iS => nmem el (snd iS)) (zipn 0 (sc_subsets I)))) SGe 1%Q.
 Definition msc_rows (I : msc_inst) : list row := map (cover_row I) (sc_universe I).
 
-(* objective: subset_weights[i] * subset_vars[i] for i in range(len(subsets));
-   None -> TypeError, too short -> IndexError: no model is built *)
+(* objective: subset_weights[i] * subset_vars[i] for i in range(len(subsets)); too short -> IndexError: no model is built *)
 Fixpoint msc_obj (i : nat) (subsets : list (list N)) (ws : list Q) : option lin :=
   match subsets with
   | [] => Some []
@@ -181,12 +208,16 @@ Fixpoint msc_obj (i : nat) (subsets : list (list N)) (ws : list Q) : option lin 
               end
   end.
 
+(* subset_weights=None: unit weights (4e8a1f8); before that fix no model was built ([encode_msc_old]) *)
+Definition msc_weights (I : msc_inst) : list Q :=
+  match sc_weights I with Some ws => ws | None => repeat 1%Q (length (sc_subsets I)) end.
+
 Definition encode_msc (I : msc_inst) : option milp :=
-  match sc_weights I with
-  | None => None
-  | Some ws => option_map (fun o => {| cols := msc_cols I; rows := msc_rows I; obj := o; maximize := false |})
-                          (msc_obj 0 (sc_subsets I) ws)
-  end.
+  option_map (fun o => {| cols := msc_cols I; rows := msc_rows I; obj := o; maximize := false |})
+             (msc_obj 0 (sc_subsets I) (msc_weights I)).
+
+Definition encode_msc_old (I : msc_inst) : option milp :=
+  match sc_weights I with None => None | Some _ => encode_msc I end.
 
 (* ====================================================================== MinErrorFlow *)
 Record mef_inst := {
